@@ -81,6 +81,7 @@ Section Decide.
        | KMacro => negb (txt_is t (s2l "\def"))
                    && match assoc (txt t) ms with None => true | Some _ => false end
        | KComment => inert_txt t
+       | KVerb false => negb (has_nl (txt t))
        | KAction | KVoid => match txt t with [] => true | _ => false end
        | KSpecial => str_eqb (txt t) s_lbrace || str_eqb (txt t) s_rbrace
                      || (inert_txt t && match assoc (txt t) (t_special_values T) with
@@ -102,6 +103,7 @@ Section Decide.
         eapply u_special; eassumption.
     - apply andb_true_iff in H. destruct H as [H1 H2]. apply negb_true_iff in H1.
       destruct (assoc (txt t) ms) eqn:Em; [discriminate|]. apply u_macro; assumption.
+    - destruct environ; [discriminate|]. apply negb_true_iff in H. apply u_verb; assumption.
     - destruct (txt t) eqn:Et; [|discriminate]. apply u_action; [left; exact Ek | exact Et].
     - destruct (txt t) eqn:Et; [|discriminate]. apply u_action; [right; exact Ek | exact Et].
   Qed.
@@ -164,6 +166,22 @@ Section Decide.
       cbn [app]. f_equal. exact Eb.
   Qed.
 
+  Definition nobrb (l : list tok) : bool :=
+    match skip_space l with x :: _ => negb (txt_is x s_lbrack) | [] => false end
+    && match l with t0 :: _ => negb (txt_is t0 s_lbrack) | [] => true end.
+  Lemma nobrb_ok l : nobrb l = true -> nobr l.
+  Proof.
+    unfold nobrb, nobr. intros H. apply andb_true_iff in H. destruct H as [H1 H2]. split.
+    - destruct (skip_space l) as [|x r]; [discriminate|]. exists x, r.
+      split; [reflexivity | apply negb_true_iff; exact H1].
+    - destruct l as [|t0 l']; [exact I | apply negb_true_iff; exact H2].
+  Qed.
+  Lemma nlbb_ok t : braceb s_bsbs t = true -> nlb t.
+  Proof.
+    unfold braceb, nlb. destruct (tk t); try discriminate. intros H.
+    apply str_eqb_eq in H. split; [reflexivity | exact H].
+  Qed.
+
   Fixpoint bclb (fuel : nat) (ms : list (str * macro)) (toks : list tok) : bool :=
     match fuel with
     | O => false
@@ -187,7 +205,7 @@ Section Decide.
               end
             else match constmb ms t with
                  | Some _ => bclb k ms l
-                 | None => false
+                 | None => braceb s_bsbs t && nobrb l && bclb k ms l
                  end
         end
     end.
@@ -199,8 +217,12 @@ Section Decide.
     destruct (uclsb ms t) eqn:Eu.
     - apply b_one; [apply uclsb_ok; exact Eu | apply IH; exact H].
     - destruct (passmb ms t) eqn:Ep.
-      2:{ destruct (constmb ms t) as [body|] eqn:Ecm; [|discriminate].
-          eapply b_const; [apply constmb_ok; exact Ecm | apply IH; exact H]. }
+      2:{ destruct (constmb ms t) as [body|] eqn:Ecm.
+          - eapply b_const; [apply constmb_ok; exact Ecm | apply IH; exact H].
+          - apply andb_true_iff in H. destruct H as [H H3].
+            apply andb_true_iff in H. destruct H as [H1 H2].
+            apply b_newline; [apply nlbb_ok; exact H1 | apply nobrb_ok; exact H2
+                             | apply IH; exact H3]. }
       destruct l as [|o l']; [discriminate|].
       apply andb_true_iff in H. destruct H as [Ho H].
       destruct (arg_collect l' s_rbrace 1 []) as [[a rest]|] eqn:Ec; [|discriminate].
@@ -224,6 +246,7 @@ Section DocLevel.
   Variable rd : str -> option str.
   Hypothesis Htab : plain_tables_ok T = true.
   Hypothesis Hsp : forall c, sp_is_space (t_scan T) c = t_is_space T c.
+  Hypothesis Hblank : sp_is_space (t_scan T) 32 = true /\ okc T 32 = true.
   Hypothesis Hval : values_one_line T = true.
   Hypothesis Hnl : t_is_space T c_nl = true.
   Notation P := (t_scan T).
@@ -241,14 +264,19 @@ Section DocLevel.
                  assoc (txt s) (t_special_values T) = Some v /\
                  t = mk KText (pos s) v (pfix s)) \/
     (exists m mac body b, In m toks /\ tk m = KMacro /\ assoc (txt m) ms = Some mac /\
-                          m_repl mac = RToks body /\ In b body /\ t = set_pos_fix b (pos m)).
+                          m_repl mac = RToks body /\ In b body /\ t = set_pos_fix b (pos m)) \/
+    (exists s, In s toks /\ t = SpaceT (pos s) s_space) \/
+    (exists s, In s toks /\ tk s = KVerb false /\ t = mk KText (pos s) (txt s) (pfix s)).
   Proof.
     induction toks as [|s l IH]; intros t Hin; [contradiction|].
     unfold rtoks in Hin. cbn [flat_map] in Hin. apply in_app_or in Hin.
     destruct Hin as [Hin|Hin].
     - unfold rend in Hin. destruct (tk s) eqn:Ek;
         try (destruct Hin as [E|[]]; subst; left; left; reflexivity).
-      + destruct (assoc (txt s) (t_special_values T)) as [v|] eqn:Ev;
+      + destruct (str_eqb (txt s) s_bsbs).
+        { destruct Hin as [E|[]]. subst t. right. right. right. left. exists s.
+          split; [left; reflexivity | reflexivity]. }
+        destruct (assoc (txt s) (t_special_values T)) as [v|] eqn:Ev;
           [|destruct Hin as [E|[]]; subst; left; left; reflexivity].
         destruct (inert_txt s); [|destruct Hin as [E|[]]; subst; left; left; reflexivity].
         destruct Hin as [E|[]]. subst t. right. left. exists s, v.
@@ -258,12 +286,17 @@ Section DocLevel.
         destruct (m_args mac); [|destruct Hin as [E|[]]; subst; left; left; reflexivity].
         destruct (m_repl mac) as [body|h] eqn:Er;
           [|destruct Hin as [E|[]]; subst; left; left; reflexivity].
-        apply in_map_iff in Hin. destruct Hin as (b & Eb & Hb). right. right.
+        apply in_map_iff in Hin. destruct Hin as (b & Eb & Hb). right. right. left.
         exists s, mac, body, b. repeat split; try assumption; [left; reflexivity | symmetry; exact Eb].
-    - destruct (IH t Hin) as [H|[(s0 & v & H1 & H2)|(m & mac & body & b & H1 & H2)]].
+      + destruct environ; [destruct Hin as [E|[]]; subst; left; left; reflexivity|].
+        destruct Hin as [E|[]]. subst t. right. right. right. right. exists s.
+        repeat split; [left; reflexivity | exact Ek].
+    - destruct (IH t Hin) as [H|[(s0 & v & H1 & H2)|[(m & mac & body & b & H1 & H2)|[(s0 & H1 & H2)|(s0 & H1 & H2)]]]].
       + left. right. exact H.
       + right. left. exists s0, v. split; [right; exact H1 | exact H2].
-      + right. right. exists m, mac, body, b. split; [right; exact H1 | exact H2].
+      + right. right. left. exists m, mac, body, b. split; [right; exact H1 | exact H2].
+      + right. right. right. left. exists s0. split; [right; exact H1 | exact H2].
+      + right. right. right. right. exists s0. split; [right; exact H1 | exact H2].
   Qed.
 
   (* For a document of the class parser_work returns, as its tokens of
@@ -285,7 +318,9 @@ Section DocLevel.
                      (exists m mac body b, In m toks /\ faithful latex m /\ tk m = KMacro /\
                                   assoc (txt m) (macros st) = Some mac /\
                                   m_repl mac = RToks body /\ In b body /\
-                                  t = set_pos_fix b (pos m)))
+                                  t = set_pos_fix b (pos m)) \/
+                     (exists s, In s toks /\ faithful latex s /\ tk s = KVerb false /\
+                                  t = mk KText (pos s) (txt s) (pfix s)))
            (filter (solid (t_is_space T)) (snd r)) /\
     unknowns (fst r) = fold_left add_unknown (unames (macros st) toks) (unknowns st) /\
     macros (fst r) = macros st.
@@ -307,20 +342,23 @@ Section DocLevel.
     cbn [rbind fst snd] in H.
     apply bclb_ok in Hb.
     assert (Hb' : bcl T (macros (upd_latex st latex)) toks) by exact Hb.
-    destruct (exec_args T rd Htab Hsp fuel toks [] _ _ Hb' Ee)
+    destruct (exec_args T rd Htab Hsp Hblank fuel toks [] _ _ Hb' Ee)
       as (st2 & ts & out & Er & _ & _ & _ & _ & _ & _).
     inversion Er; subst st2 an. clear Er. inversion H; subst r. cbn [fst snd].
-    pose proof (exec_args_positions T rd Htab Hsp Hval fuel toks _ _ _ Hnl Hb' Ee) as Hpos.
-    destruct (exec_args_text T rd Htab Hsp fuel toks _ _ _ Hnl Hb' Ee) as (_ & Hu & Hm).
+    pose proof (exec_args_positions T rd Htab Hsp Hblank Hval fuel toks _ _ _ Hnl Hb' Ee) as Hpos.
+    destruct (exec_args_text T rd Htab Hsp Hblank fuel toks _ _ _ Hnl Hb' Ee) as (_ & Hu & Hm).
     split; [exact Hpos|]. split; [|split; [exact Hu | exact Hm]].
-    rewrite Hpos. apply Forall_forall. intros t Ht. apply filter_In in Ht. destruct Ht as [Ht _].
-    unfold texts in Ht. apply filter_In in Ht. destruct Ht as [Ht _].
+    rewrite Hpos. apply Forall_forall. intros t Ht. apply filter_In in Ht. destruct Ht as [Ht Hsolid].
+    unfold texts in Ht. apply filter_In in Ht. destruct Ht as [Ht Htx].
     rewrite Forall_forall in Hfa.
     destruct (rtoks_origin _ toks t Ht) as [Hin|[(s & v & Hin & Hk & Hv & Et)|
-                                                 (m & mac & body & b & Hin & Hk & Hmm & Hr & Hbb & Et)]].
+                                                 [(m & mac & body & b & Hin & Hk & Hmm & Hr & Hbb & Et)
+                                                 |[(s & Hin & Et)|(s & Hin & Hk & Et)]]]].
+    4:{ exfalso. subst t. unfold tx in Htx. discriminate Htx. }
     - left. split; [exact Hin | apply Hfa; exact Hin].
     - right. left. exists s, v. repeat split; try assumption. apply Hfa. exact Hin.
-    - right. right. exists m, mac, body, b. repeat split; try assumption. apply Hfa. exact Hin.
+    - right. right. left. exists m, mac, body, b. repeat split; try assumption. apply Hfa. exact Hin.
+    - right. right. right. exists s. repeat split; try assumption. apply Hfa. exact Hin.
   Qed.
 
   (* and parser_work does return for such a document, given the fuel *)
@@ -343,7 +381,7 @@ Section DocLevel.
     destruct (exec_args_total T rd Htab (S (mu (macros st) toks)) toks [] _ Hb'
                 ltac:(cbn [macros upd_latex]; lia)) as [[st1 an] E].
     rewrite E. cbn [rbind fst snd].
-    destruct (exec_args T rd Htab Hsp _ toks [] _ _ Hb' E)
+    destruct (exec_args T rd Htab Hsp Hblank _ toks [] _ _ Hb' E)
       as (st2 & ts & out & Er & _).
     inversion Er; subst. eexists. reflexivity.
   Qed.
